@@ -5,6 +5,7 @@ import (
 	"os"
 	"path/filepath"
 	"sort"
+	"strconv"
 
 	vexec "vp/exec"
 	"vp/run"
@@ -23,15 +24,42 @@ func ExecOne(pkg, fn string, params map[string]int64, repoDir, verifDir string) 
 		fmt.Println(err)
 		return 2
 	}
-	pl := sym.NewPool([]string{"z3-new", "z3"}, 60000)
+	tmo := 60000
+	if v, err := strconv.Atoi(os.Getenv("VP_TIMEOUT_MS")); err == nil && v > 0 {
+		tmo = v
+	}
+	pl := sym.NewPool([]string{"z3-new", "z3"}, tmo)
 	defer pl.Close()
 	inst := run.Instance{Prop: "ADHOC", Pkg: pkg, Func: fn, Params: params}
 	inst.Opt.Sweep = os.Getenv("VP_SWEEP") != ""
+	inst.Opt.TimeoutMs = tmo
+	if os.Getenv("VP_PANICS") == "ignore" {
+		inst.Opt.PanicMode = "ignore"
+	}
 	if rook := w.Func("attacks", "RookMoves"); rook != nil && os.Getenv("VP_NOSUMMARY") == "" {
 		bishop := w.Func("attacks", "BishopMoves")
 		inst.Opt.Setup = func(x *vexec.Exec, w *run.World) {
 			x.InstallSliderSummary(rook, bishop, func(string, int) bool { return true })
 		}
+	}
+	if pkg == "movegen" {
+		prev := inst.Opt.Setup
+		inst.Opt.Setup = func(x *vexec.Exec, w *run.World) {
+			if prev != nil {
+				prev(x, w)
+			}
+			genObserver(x, w)
+		}
+	}
+	if pkg == "picker" {
+		prev := inst.Opt.Setup
+		inst.Opt.Setup = func(x *vexec.Exec, w *run.World) {
+			if prev != nil {
+				prev(x, w)
+			}
+			pickerRankStubs(x, w)
+		}
+		inst.Opt.LoopBound = 16
 	}
 	r := w.RunInstance(inst, pl)
 	printInst(r)
